@@ -8,6 +8,7 @@ package layers
 
 import (
 	"encoding/binary"
+	"encoding/hex"
 	"net"
 	"strconv"
 
@@ -28,25 +29,30 @@ var (
 	EndpointMAC = gopacket.RegisterEndpointType(3, gopacket.EndpointTypeMetadata{Name: "MAC", Formatter: func(b []byte) string {
 		return net.HardwareAddr(b).String()
 	}})
-	EndpointTCPPort = gopacket.RegisterEndpointType(4, gopacket.EndpointTypeMetadata{Name: "TCP", Formatter: func(b []byte) string {
-		return strconv.Itoa(int(binary.BigEndian.Uint16(b)))
-	}})
-	EndpointUDPPort = gopacket.RegisterEndpointType(5, gopacket.EndpointTypeMetadata{Name: "UDP", Formatter: func(b []byte) string {
-		return strconv.Itoa(int(binary.BigEndian.Uint16(b)))
-	}})
-	EndpointSCTPPort = gopacket.RegisterEndpointType(6, gopacket.EndpointTypeMetadata{Name: "SCTP", Formatter: func(b []byte) string {
-		return strconv.Itoa(int(binary.BigEndian.Uint16(b)))
-	}})
+	EndpointTCPPort  = gopacket.RegisterEndpointType(4, gopacket.EndpointTypeMetadata{Name: "TCP", Formatter: formatPort16})
+	EndpointUDPPort  = gopacket.RegisterEndpointType(5, gopacket.EndpointTypeMetadata{Name: "UDP", Formatter: formatPort16})
+	EndpointSCTPPort = gopacket.RegisterEndpointType(6, gopacket.EndpointTypeMetadata{Name: "SCTP", Formatter: formatPort16})
 	EndpointRUDPPort = gopacket.RegisterEndpointType(7, gopacket.EndpointTypeMetadata{Name: "RUDP", Formatter: func(b []byte) string {
+		if len(b) < 1 {
+			return hex.EncodeToString(b)
+		}
 		return strconv.Itoa(int(b[0]))
 	}})
-	EndpointUDPLitePort = gopacket.RegisterEndpointType(8, gopacket.EndpointTypeMetadata{Name: "UDPLite", Formatter: func(b []byte) string {
-		return strconv.Itoa(int(binary.BigEndian.Uint16(b)))
-	}})
-	EndpointPPP = gopacket.RegisterEndpointType(9, gopacket.EndpointTypeMetadata{Name: "PPP", Formatter: func([]byte) string {
+	EndpointUDPLitePort = gopacket.RegisterEndpointType(8, gopacket.EndpointTypeMetadata{Name: "UDPLite", Formatter: formatPort16})
+	EndpointPPP         = gopacket.RegisterEndpointType(9, gopacket.EndpointTypeMetadata{Name: "PPP", Formatter: func([]byte) string {
 		return "point"
 	}})
 )
+
+// formatPort16 renders a 16-bit port.  The endpoints of a transport layer whose
+// header was too short to decode have no port bytes; they are rendered as the
+// (empty) hex string of what is there instead of panicking.
+func formatPort16(b []byte) string {
+	if len(b) < 2 {
+		return hex.EncodeToString(b)
+	}
+	return strconv.Itoa(int(binary.BigEndian.Uint16(b)))
+}
 
 // NewIPEndpoint creates a new IP (v4 or v6) endpoint from a net.IP address.
 // It returns gopacket.InvalidEndpoint if the IP address is invalid.
